@@ -256,7 +256,7 @@ func drawCase(t *rapid.T) *Case {
 
 func TestRandom(t *testing.T) {
 	ev.Rule(rule)
-	ev.Rapid(t, "c02-random", 400, 16000, func(rt *rapid.T) {
+	ev.Rapid(t, "c02-random", 1500, 16000, func(rt *rapid.T) {
 		checkUDist.Run(rt, drawCase(rt))
 	})
 }
